@@ -899,9 +899,6 @@ func (h *hctx) liveReport(r *runner) {
 	if r.liveViol != nil && len(r.imgs) > 0 {
 		im := r.imgs[len(r.imgs)-1]
 		h.report(r, im, Fault{Kind: "clean"}, "live", nil, im.NRecs, r.liveOut, *r.liveViol)
-	} else if r.deadOut != nil && os.Getenv("VERIF_C05_DEBUG") != "" && len(r.imgs) > 0 {
-		im := r.imgs[len(r.imgs)-1]
-		h.report(r, im, Fault{Kind: "clean"}, "live", nil, im.NRecs, r.deadOut, verdict{Sig: "DEBUG-clean-close-then-reopen-fails", Msg: r.err.Error()})
 	} else if r.deadOut != nil && h.depth > 0 {
 		// loud failure: admissible; recorded
 		h.st.add("clean_close_then_reopen_failed_after_recovery."+r.deadOut.Err, 1)
